@@ -428,7 +428,11 @@ func (fv *FnV) evalExternal(st *State, call *ast.CallExpr, o *types.Func) []Val 
 		if _, ok := t.Underlying().(*types.Slice); ok {
 			_, lenT, _, nilT := fv.sliceParts(v)
 			sl := t.Underlying().(*types.Slice)
+			_, _, arrT, _ := fv.sliceParts(v)
 			b := fv.fresh("sorted", "(Array Int "+fv.smt.sortOf(sl.Elem())+")")
+			ln := fv.name("n", lenT, "Int")
+			// the sorted slice is a permutation: every element comes from the original
+			st.assume(fmt.Sprintf("(forall ((j!q Int)) (! (=> (and (<= 0 j!q) (< j!q %s)) (exists ((k!q Int)) (and (<= 0 k!q) (< k!q %s) (= (select %s j!q) (select %s k!q))))) :pattern ((select %s j!q))))", ln, ln, b, arrT, b))
 			fv.assign(st, call.Args[0], fv.mkSlice(t, lenT, b, nilT))
 		}
 		return nil
@@ -557,6 +561,10 @@ func (fv *FnV) evalSpecCall(st *State, call *ast.CallExpr, name string, o *types
 		return Val{fmt.Sprintf("(* %s %s)", a.T, b.T), rt}
 	case "mathInt":
 		return Val{fv.eval(st, call.Args[0]).T, rt}
+	case "same":
+		a := fv.eval(st, call.Args[0])
+		b := fv.eval(st, call.Args[1])
+		return Val{fmt.Sprintf("(= %s %s)", a.T, b.T), rt}
 	case "isnil":
 		a := fv.eval(st, call.Args[0])
 		_, _, _, nilT := fv.sliceParts(a)
@@ -567,6 +575,41 @@ func (fv *FnV) evalSpecCall(st *State, call *ast.CallExpr, name string, o *types
 	if sfd == nil {
 		fv.unsupported(call, "spec function "+name)
 		return Val{fv.fresh("unk", fv.smt.sortOf(rt)), rt}
+	}
+	// spec functions over heap references are expanded in place (they read the current heap)
+	heapDep := false
+	for _, f := range sfd.Type.Params.List {
+		if tv, ok := fv.prog.Info.Types[f.Type]; ok && fv.smt.isHeapPtr(tv.Type) {
+			heapDep = true
+		}
+	}
+	if heapDep {
+		cur := map[types.Object]Val{}
+		i := 0
+		for _, f := range sfd.Type.Params.List {
+			for _, n := range f.Names {
+				if i < len(call.Args) {
+					cur[fv.prog.Info.Defs[n]] = fv.eval(st, call.Args[i])
+				}
+				i++
+			}
+		}
+		sf := &specFrame{cur: cur, old: cur}
+		if top := fv.specTop(); top != nil {
+			sf.oldSt = top.oldSt
+			sf.inOld = top.inOld
+		}
+		fv.specStack = append(fv.specStack, sf)
+		saveSpec := fv.spec
+		fv.spec = true
+		es := st
+		if sf.inOld > 0 && sf.oldSt != nil {
+			es = sf.oldSt
+		}
+		v := fv.eval(es, sfd.Body.List[0].(*ast.ReturnStmt).Results[0])
+		fv.spec = saveSpec
+		fv.specStack = fv.specStack[:len(fv.specStack)-1]
+		return Val{v.T, rt}
 	}
 	fv.defineSpecFunc(name, sfd, o)
 	var as []string
